@@ -8,7 +8,7 @@ from mir_engine import MQ
 from mirlib import *
 from envlib import *
 from storelib import *
-import C11 as c11
+import replaylib as c11
 
 EXPLANATION = ("Bounded symbolic execution of the generic MIR of Track::distances, of the worker's Distances handler, of "
                "TrackStore::{foreign_track_distances, owned_track_distances} and of the TrackDistanceOk/Err response objects. "
@@ -259,10 +259,15 @@ fn replay() {
         let mut store: TrackStore<TA, M, f32, Notif> = TrackStore::new(M::default(), TA::default(), notif.clone(), 2);
         store.add_track(build(1, &[0u64], &notif)).unwrap();
         store.add_track(build(2, &[0u64], &notif)).unwrap();
+        // expected number of results per ordered pair, from the tracks themselves
+        let e12 = store.get_store(1).get(&1).unwrap().distances(store.get_store(2).get(&2).unwrap(), 0).unwrap().len();
+        let e21 = store.get_store(2).get(&2).unwrap().distances(store.get_store(1).get(&1).unwrap(), 0).unwrap().len();
+        assert!(e12 > 0 && e21 > 0);
         let (ok, _err) = store.owned_track_distances(&[1, 2], 0, false);
         let res = ok.all();
-        let pairs: Vec<(u64, u64)> = res.iter().map(|r| (r.from, r.to)).collect();
-        if !(pairs.contains(&(1, 2)) && pairs.contains(&(2, 1)) && pairs.len() == 2) {
+        let n12 = res.iter().filter(|r| (r.from, r.to) == (1, 2)).count();
+        let n21 = res.iter().filter(|r| (r.from, r.to) == (2, 1)).count();
+        if !(n12 == e12 && n21 == e21 && res.len() == e12 + e21) {
             misses += 1;
         }
     }
@@ -271,8 +276,133 @@ fn replay() {
 '''
 
 
+# ---------------------------------------------------------------- native sweep for the distance queries
+DIST_SWEEP = r'''
+use anyhow::{anyhow, Result};
+use similari::store::TrackStore;
+use similari::track::notify::NoopNotifier;
+use similari::track::{
+    MetricOutput, MetricQuery, NoopLookup, Observation, ObservationMetric, ObservationsDb, Track, TrackAttributes,
+    TrackAttributesUpdate, TrackStatus,
+};
+
+// scripted attributes: v % 4 = 0 Ready, 1 Pending, 2 Wasted, 3 status error; compatible iff bit 3 of v agrees
+#[derive(Clone, Debug, PartialEq, Default)]
+struct TA { v: u64 }
+#[derive(Clone)]
+struct Upd;
+impl TrackAttributesUpdate<TA> for Upd { fn apply(&self, _a: &mut TA) -> Result<()> { Ok(()) } }
+impl TrackAttributes<TA, f32> for TA {
+    type Update = Upd;
+    type Lookup = NoopLookup<TA, f32>;
+    fn compatible(&self, o: &TA) -> bool { (self.v ^ o.v) & 8 == 0 }
+    fn merge(&mut self, _o: &TA) -> Result<()> { Ok(()) }
+    fn baked(&self, _o: &ObservationsDb<f32>) -> Result<TrackStatus> {
+        match self.v % 4 { 0 => Ok(TrackStatus::Ready), 1 => Ok(TrackStatus::Pending), 2 => Ok(TrackStatus::Wasted), _ => Err(anyhow!("scripted status error")) }
+    }
+}
+// metric: defined unless the two observation attributes sum to a multiple of 5
+#[derive(Clone, Default)]
+struct M;
+fn pair_value(a: f32, b: f32) -> Option<f32> { if ((a + b) as i64) % 5 == 0 { None } else { Some(a * 100.0 + b) } }
+impl ObservationMetric<TA, f32> for M {
+    fn metric(&self, mq: &MetricQuery<'_, TA, f32>) -> MetricOutput<f32> {
+        let v = pair_value(mq.candidate_observation.attr().unwrap(), mq.track_observation.attr().unwrap())?;
+        Some((Some(v), None))
+    }
+    fn optimize(&mut self, _c: u64, _h: &[u64], _a: &mut TA, _o: &mut Vec<Observation<f32>>, _p: usize, _m: bool) -> Result<()> { Ok(()) }
+}
+type T = Track<TA, M, f32, NoopNotifier>;
+type S = TrackStore<TA, M, f32, NoopNotifier>;
+
+#[derive(Clone, Debug)]
+struct Spec { id: u64, v: u64, obs: Vec<f32>, has_class: bool }
+fn mk(s: &Spec) -> T {
+    let mut t = T::new(s.id, M, TA { v: s.v }, NoopNotifier);
+    for o in &s.obs { t.add_observation(if s.has_class { 0 } else { 1 }, Some(*o), None, None).unwrap(); }
+    t
+}
+/// reference answer computed from the specs: (sorted results (from, to, value bits), number of errors)
+fn reference(cands: &[Spec], stored: &[Spec], only_baked: bool) -> (Vec<(u64, u64, u32)>, usize) {
+    let (mut ok, mut errs) = (vec![], 0);
+    for c in cands { for t in stored {
+        if t.id == c.id { continue; }
+        if only_baked && t.v % 4 != 0 { continue; }
+        if (c.v ^ t.v) & 8 != 0 { continue; }
+        if !c.has_class || !t.has_class { errs += 1; continue; }
+        for a in &c.obs { for b in &t.obs { if let Some(v) = pair_value(*a, *b) { ok.push((c.id, t.id, v.to_bits())); } } }
+    } }
+    ok.sort();
+    (ok, errs)
+}
+
+#[test]
+fn replay() {
+    let ids: [u64; 5] = [%(ids)s];
+    for round in 0..40u64 {
+        for shards in 1..=4usize { for only_baked in [false, true] { for variant in 0..6u64 {
+            // store content: four tracks with varying status / compatibility / class presence / observation counts
+            let stored: Vec<Spec> = (0..4usize).map(|k| {
+                let x = variant * 7 + k as u64 * 3 + round %% 5;
+                Spec { id: ids[k], v: (x %% 4) + if (x / 4) %% 3 == 0 { 8 } else { 0 }, obs: (0..(1 + (x %% 3))).map(|j| (k as f32) * 10.0 + j as f32 + 1.0).collect(),
+                       has_class: (x / 2) %% 4 != 0 }
+            }).collect();
+            let mut store: S = TrackStore::new(M, TA::default(), NoopNotifier, shards);
+            for sp in &stored { store.add_track(mk(sp)).unwrap(); }
+            // ---- foreign candidates (not stored)
+            let foreign: Vec<Spec> = (0..2usize).map(|k| Spec { id: ids[4] + 1000 + k as u64, v: if (variant + k as u64) %% 2 == 0 { 0 } else { 8 },
+                                                              obs: vec![3.0 + k as f32, 4.0], has_class: (variant + k as u64) %% 5 != 0 }).collect();
+            let (ok, err) = store.foreign_track_distances(foreign.iter().map(mk).collect(), 0, only_baked);
+            let mut got: Vec<(u64, u64, u32)> = if round %% 2 == 0 { ok.all() } else { ok.into_iter().collect() }
+                .iter().map(|r| (r.from, r.to, r.attribute_metric.unwrap().to_bits())).collect();
+            got.sort();
+            let errs = err.all().len();
+            let (exp, exp_errs) = reference(&foreign, &stored, only_baked);
+            assert_eq!(got, exp, "foreign distances: result multiset (shards {} only_baked {} variant {})", shards, only_baked, variant);
+            assert_eq!(errs, exp_errs, "foreign distances: missing-class cases on the error stream (shards {} only_baked {} variant {})", shards, only_baked, variant);
+            assert_eq!(store.shard_stats().iter().sum::<usize>(), 4, "the store is unchanged by a foreign query");
+            // ---- owned candidates (stored tracks, compared with every other stored track including one another)
+            let owned: Vec<Spec> = vec![stored[(variant %% 4) as usize].clone(), stored[((variant + 1 + round %% 3) %% 4) as usize].clone()];
+            let owned: Vec<Spec> = if owned[0].id == owned[1].id { vec![owned[0].clone()] } else { owned };
+            let (ok, err) = store.owned_track_distances(&owned.iter().map(|s| s.id).collect::<Vec<_>>(), 0, only_baked);
+            let mut got: Vec<(u64, u64, u32)> = ok.all().iter().map(|r| (r.from, r.to, r.attribute_metric.unwrap().to_bits())).collect();
+            got.sort();
+            let errs = err.all().len();
+            let (exp, exp_errs) = reference(&owned, &stored, only_baked);
+            assert_eq!(got, exp, "owned distances: result multiset (shards {} only_baked {} variant {})", shards, only_baked, variant);
+            assert_eq!(errs, exp_errs, "owned distances: error stream (shards {} only_baked {} variant {})", shards, only_baked, variant);
+            let mut left: Vec<u64> = (0..shards).flat_map(|sh| store.get_store(sh).keys().cloned().collect::<Vec<_>>()).collect();
+            left.sort();
+            let mut all: Vec<u64> = stored.iter().map(|s| s.id).collect();
+            all.sort();
+            assert_eq!(left, all, "the store is unchanged by an owned query");
+        } } }
+    }
+}
+'''.replace("%%", "%")
+
+
+def _replay_sweep(cex, v, vm):
+    ids = []
+    for k, val in cex["inputs"].items():
+        if k.split('!')[0].endswith('_id') and isinstance(val, int) and val not in ids and val < 2 ** 63:
+            ids.append(val)
+    k = 3
+    while len(ids) < 5:
+        if k not in ids:
+            ids.append(k)
+        k += 1
+    return DIST_SWEEP.replace("%(ids)s", ", ".join("%du64" % i for i in ids[:5]))
+
+
 def _replay_owned(cex, v, vm):
+    # the schedule-dependent race first (repeated rounds), then the general sweep
     return REPLAY_OWNED
+
+
+def _replay_owned_or_sweep(cex, v, vm):
+    # two native tests: the race scenario the solver's schedule describes (repeated rounds) and the general sweep
+    return "mod race {\n" + REPLAY_OWNED + "\n}\nmod sweep {\n" + _replay_sweep(cex, v, vm) + "\n}\n"
 
 
 T = "similari::track::Track::distances"
@@ -281,9 +411,9 @@ W = TS + "handle_store_ops"
 TD = "similari::track::store::track_distance::"
 MIR = [
     MQ("c10_track_distances_1x1", "quick", _mk_track_distances(1, 1), "Track::distances: error cases and one result per pair with a metric value, cartesian order",
-       "1x1 observations, class present/absent on each side, arbitrary compatible/metric", [T], spec_calls=_dist_calls),
-    MQ("c10_track_distances_2x2", "quick", _mk_track_distances(2, 2), "Track::distances: same", "2x2 observations", [T], spec_calls=_dist_calls),
-    MQ("c10_track_distances_3x2", "thorough", _mk_track_distances(3, 2), "Track::distances: same", "3x2 observations", [T], spec_calls=_dist_calls),
+       "1x1 observations, class present/absent on each side, arbitrary compatible/metric", [T], spec_calls=_dist_calls, replay=_replay_sweep),
+    MQ("c10_track_distances_2x2", "quick", _mk_track_distances(2, 2), "Track::distances: same", "2x2 observations", [T], spec_calls=_dist_calls, replay=_replay_sweep),
+    MQ("c10_track_distances_3x2", "thorough", _mk_track_distances(3, 2), "Track::distances: same", "3x2 observations", [T], spec_calls=_dist_calls, replay=_replay_sweep),
 ]
 for (kind, S, nc, ns, nobs, it, tier) in [('foreign', 1, 1, 2, 1, False, 'quick'), ('foreign', 2, 1, 2, 1, False, 'quick'), ('foreign', 2, 1, 2, 1, True, 'quick'),
                                            ('foreign', 2, 2, 2, 1, False, 'thorough'), ('foreign', 2, 1, 3, 1, False, 'thorough'), ('foreign', 1, 1, 2, 2, False, 'thorough'),
@@ -294,5 +424,5 @@ for (kind, S, nc, ns, nobs, it, tier) in [('foreign', 1, 1, 2, 1, False, 'quick'
                   "%d shards, %d candidates, %d stored tracks, %d observations each, only_baked both, yield after every send + every worker order" % (S, nc, ns, nobs),
                   [TS + ("foreign_track_distances" if kind == 'foreign' else "owned_track_distances"), W, T, TD + "TrackDistanceOk::all", TD + "TrackDistanceErr::all"]
                   + ([TD + "TrackDistanceOkIterator::next"] if it else []) + ([TS + "fetch_tracks", TS + "add_track"] if kind == 'owned' else []),
-                  spec_calls=_dist_calls, replay=_replay_owned if kind == 'owned' else None, key='owned-distances-race' if kind == 'owned' else None,
+                  spec_calls=_dist_calls, replay=_replay_owned_or_sweep if kind == 'owned' else _replay_sweep, key='owned-distances-race' if kind == 'owned' else None,
                   max_paths=300000, timeout=3000))
